@@ -3,3 +3,4 @@ import MoreExec.Model.Timeout
 import MoreExec.Props.C09
 import MoreExec.Props.C14
 import MoreExec.Props.C15
+import MoreExec.Props.C13
